@@ -1,5 +1,6 @@
 import CppUModel.Base.Proto
 import CppUModel.Model.Mock
+import CppUModel.Model.MockParam
 /-!
 Driver for C08 (mock verdict).
 
@@ -39,6 +40,33 @@ def parseVal (t v : String) : Option Val :=
   | "m" => (Proto.unhex? v).map Val.mem
   | _ => none
 
+/-- a parameter value as the MODEL stores it: the typed value of the scenario (`MVal`, the C09
+    value model, LP64 widths) in the normal form `paramKey` — all six integer types become the
+    integer they denote (`denote?`), so that the matching model's structural comparison is the
+    code's `MockNamedValue::equals` (`param_equal_iff_same_integer` in Props/C08.lean) -/
+def parseParamModel (t v : String) : Option Val :=
+  match t with
+  | "i" => v.toInt?.map (fun z => paramKey (.int (BitVec.ofInt 32 z)))
+  | "u" => v.toInt?.map (fun z => paramKey (.uint (BitVec.ofInt 32 z)))
+  | "l" => v.toInt?.map (fun z => paramKey (.long (BitVec.ofInt 64 z)))
+  | "ul" => v.toInt?.map (fun z => paramKey (.ulong (BitVec.ofInt 64 z)))
+  | "ll" => v.toInt?.map (fun z => paramKey (.llong (BitVec.ofInt 64 z)))
+  | "ull" => v.toInt?.map (fun z => paramKey (.ullong (BitVec.ofInt 64 z)))
+  | "s" => (Proto.unhex? v).map (fun b => paramKey (.str (some b)))
+  | "p" => v.toNat?.map (fun a => paramKey (.ptr a))
+  | "cp" => v.toNat?.map (fun a => paramKey (.cptr a))
+  | "b" => if v = "1" then some (paramKey (.bool true)) else if v = "0" then some (paramKey (.bool false)) else none
+  | "m" => (Proto.unhex? v).map (fun b => paramKey (.mem b))
+  | _ => none
+
+/-- a parameter value as the ORACLE reads it (independent of the value model): an integer of any
+    of the six integer types is the decimal number written in the scenario; two parameter values
+    are equal iff they are the same integer, or the same non-integer type with the same content -/
+def parseParamOracle (t v : String) : Option Val :=
+  match t with
+  | "i" | "u" | "l" | "ul" | "ll" | "ull" => v.toInt?.map Val.int
+  | _ => parseVal t v
+
 def renderVal : Val → String
   | .int v => s!"i:{v}"
   | .uint v => s!"u:{v}"
@@ -53,19 +81,19 @@ inductive CSeg
   | r
 deriving Repr, Inhabited
 
-def parseCallSeg (w : String) : Option CSeg :=
+def parseCallSeg (pv : String → String → Option Val) (w : String) : Option CSeg :=
   match splitColon w with
   | ["r"] => some .r
   | ["o", id] => id.toNat?.map (fun o => .seg (.obj o))
-  | ["p", n, t, v] => (parseVal t v).map (fun x => .seg (.inp n x))
+  | ["p", n, t, v] => (pv t v).map (fun x => .seg (.inp n x))
   | ["out", n] => some (.seg (.out n))
   | _ => none
 
-def parseExpSeg (w : String) : Option ESeg :=
+def parseExpSeg (pv : String → String → Option Val) (w : String) : Option ESeg :=
   match splitColon w with
   | ["iop"] => some .iop
   | ["o", id] => id.toNat?.map ESeg.obj
-  | ["p", n, t, v] => (parseVal t v).map (ESeg.inp n)
+  | ["p", n, t, v] => (pv t v).map (ESeg.inp n)
   | ["out", n, h] => (Proto.unhex? h).map (ESeg.out n)
   | ["ret", t, v] => (parseVal t v).map ESeg.ret
   | _ => none
@@ -90,7 +118,7 @@ def splitR : List CSeg → Option (List Seg × Bool)
   | .r :: _ => none
   | .seg s :: rest => (splitR rest).map (fun p => (s :: p.1, p.2))
 
-def parseCmd (ws : List String) : Option Cmd :=
+def parseCmdWith (pv : String → String → Option Val) (ws : List String) : Option Cmd :=
   match ws with
   | ["skip"] => some .skip
   | ["strict", s] => some (.strict (scopeName s))
@@ -101,14 +129,19 @@ def parseCmd (ws : List String) : Option Cmd :=
   | ["clear", s] => some (.clear (scopeName s))
   | ["left", s] => some (.left (scopeName s))
   | "expect" :: s :: n :: fn :: segs =>
-    match parseCount n, segs.mapM parseExpSeg with
+    match parseCount n, segs.mapM (parseExpSeg pv) with
     | some k, some es => if n = "no" && !es.isEmpty then none else some (.expect (scopeName s) k fn es)
     | _, _ => none
   | "call" :: s :: fn :: segs =>
-    match segs.mapM parseCallSeg with
+    match segs.mapM (parseCallSeg pv) with
     | some cs => (splitR cs).map (fun p => .call (scopeName s) fn p.1 p.2)
     | none => none
   | _ => none
+
+/-- the model's reading of a scenario line -/
+def parseCmd (ws : List String) : Option Cmd := parseCmdWith parseParamModel ws
+/-- the oracle's reading of a scenario line -/
+def parseCmdOracle (ws : List String) : Option Cmd := parseCmdWith parseParamOracle ws
 
 def bufInit : List UInt8 := List.replicate 8 0xEE
 
@@ -255,7 +288,7 @@ def intKind : Val → Option Nat
 
 structure Pre where
   st : OState := {}
-  kinds : List (String × Nat) := []     -- integer flavour seen per parameter name
+  kinds : List (String × Nat) := []     -- (all integer types are one kind for the oracle: values are compared as integers)
   ok : Bool := true
 deriving Inhabited
 
@@ -529,13 +562,13 @@ def judgeOp (w : Want) (obs : List (List String)) : Except String Bool :=
       | none, none => .ok false
 
 def run (ops : List Proto.Op) : Option String :=
-  let cmds := ops.map (fun o => (parseCmd o.op).getD .skip)
+  let cmds := ops.map (fun o => (parseCmdOracle o.op).getD .skip)
   if !judged cmds then none
   else
     let rec go (st : OState) (i : Nat) : List Proto.Op → Option String
       | [] => none
       | o :: rest =>
-        match oCmd st ((parseCmd o.op).getD .skip) with
+        match oCmd st ((parseCmdOracle o.op).getD .skip) with
         | (st1, w) =>
           match judgeOp w o.obs with
           | .error e => some s!"op#{i} {" ".intercalate o.op}: {e}"
